@@ -1,10 +1,22 @@
 package tmv
 
 import (
+	"crypto/sha256"
+	"encoding/binary"
 	"time"
 
 	"pgregory.net/rapid"
 )
+
+// upick chooses an index in [0,n) uniformly: rapid's integer generators favour small values,
+// which would starve the classes at the end of a list; hashing a drawn word spreads the choice
+// evenly while the case stays a pure function of the drawn data.
+func upick(t *rapid.T, n int, label string) int {
+	var b [4]byte
+	binary.BigEndian.PutUint32(b[:], rapid.Uint32().Draw(t, label))
+	h := sha256.Sum256(b[:])
+	return int(binary.BigEndian.Uint32(h[:4]) % uint32(n))
+}
 
 // ---- validator-set generators ------------------------------------------------------------
 
@@ -548,7 +560,7 @@ func genProbe(t *rapid.T, class string) c24Probe {
 }
 
 func genC24(t *rapid.T) c24Case {
-	start := rapid.IntRange(0, len(c24Classes)-1).Draw(t, "start")
+	start := upick(t, len(c24Classes), "start")
 	var c c24Case
 	for j := 0; j < 10; j++ {
 		c.Probes = append(c.Probes, genProbe(t, c24Classes[(start+j)%len(c24Classes)]))
